@@ -15,6 +15,7 @@ from vf.writers import vmdk as wvmdk
 
 ID = "C13"
 LEVEL = "exploration"
+CONTRACTS = True  # icontract postconditions on AlignedStream.read/peek/seek fire during this workload too
 STEP_BUDGET = 120_000_000
 ANCHOR_FILES = [f"dissect/hypervisor/disk/{m}.py" for m in ("qcow2", "vmdk", "vhdx", "vhd", "vdi", "hdd")]
 RULE = (
